@@ -41,6 +41,12 @@ RULE_BREAKERS = [
     ("operator in typedef", "typedef operator int() x;"), ("array of references", "int& x[3];"), ("pointer to reference", "int&* x;"),
     ("inline nested namespace", "inline namespace a::b { }"),
 ]
+for _o1, _c1 in (("(", ")"), ("[", "]"), ("{", "}")):
+    for _o2, _c2 in (("(", ")"), ("[", "]"), ("{", "}")):
+        if _o1 != _o2:
+            RULE_BREAKERS.append(("mismatched bracket (nested)", "int x = %s %s 1 %s ;" % (_o1, _o2, _c1)))
+            RULE_BREAKERS.append(("mismatched bracket (nested)", "int x = f%s a, %s 1 %s, b;" % ("(", _o2, ")") if _o2 != "(" else "int y = g(h[1);"))
+            RULE_BREAKERS.append(("mismatched bracket (nested)", "enum E { A = %s 1 + %s 2 %s };" % (_o1, _o2, _c1)))
 CLASS_ONLY_BREAKERS = [("namespace in class", "namespace n { }"), ("concept in class", "template <typename T> concept C = true;"),
                        ("extern block in class", "extern \"C\" { }"), ("using namespace in class", "using namespace std;"),
                        ("extern template in class", "extern template class X<int>;")]
